@@ -135,6 +135,21 @@ def run(ck):
         open(p, "w").write(text)
         inputs.append((p, ["-t", rng.choice(progrun.TARGETS)[0]]))
         nzoo += 1
+    # string literals repeated inside function bodies (the string pool outlives the expressions that mention them)
+    for i in range(6 if ck.quick else 60):
+        pool = ["".join(rng.choice("abcdefgh ") for _ in range(rng.choice([1, 3, 8, 15, 24, 39, 40, 64, 200]))) for _ in range(rng.randint(2, 6))]
+        lines = ["int puts(const char *); void use(const void *);"]
+        for fnum in range(rng.randint(1, 4)):
+            lines.append("void sf%d_%d(int c) {" % (i, fnum))
+            for _ in range(rng.randint(3, 12)):
+                lit = rng.choice(pool)
+                pf = rng.choice(["", "", "", "L", "u", "U", "u8"])
+                lines.append('\t%s(%s"%s");' % ("puts" if pf in ("", "u8") else "use", pf, lit) if rng.random() < 0.7 else
+                             '\tif (c) { const void *p = %s"%s"; use(p); }' % (pf, lit))
+            lines.append("}")
+        p = os.path.join(d, "str%d.c" % i)
+        open(p, "w").write("\n".join(lines) + "\n")
+        inputs.append((p, ["-t", rng.choice(progrun.TARGETS)[0]]))
     base_env = {"PATH": os.environ.get("PATH", "/usr/bin:/bin")}
     msan = build_msan(ck)
     setarch = shutil.which("setarch")
